@@ -155,6 +155,27 @@ pub assume_specification[ usize::next_power_of_two ](x: usize) -> (r: usize)
         x == 0 ==> r == 1,
 ;
 
+// rule R4b: `x.trailing_zeros()` -> `x.vf_trailing_zeros()` (vstd's own spec of trailing_zeros is closed)
+pub trait VfTz {
+    spec fn vf_tz_spec(&self) -> nat;
+
+    fn vf_trailing_zeros(self) -> (r: u32)
+        ensures
+            r == self.vf_tz_spec(),
+    ;
+}
+
+impl VfTz for u64 {
+    open spec fn vf_tz_spec(&self) -> nat {
+        sp_tz64(*self)
+    }
+
+    #[verifier::external_body]
+    fn vf_trailing_zeros(self) -> (r: u32) {
+        self.trailing_zeros()
+    }
+}
+
 pub open spec fn sp_tz64(x: u64) -> nat
     decreases x,
 {
